@@ -6,8 +6,8 @@
    chain it has been told about (ghost), and the log of all events sent.
    [sreach w0 w] / [creach w0 w] = w is reached from w0 by calls that satisfy
    the environment obligations [svalid] / [cvalid]: client height hints not
-   above the actual spend/confirmation height, truthful rescan answers
-   delivered while some client is registered, ConnectTip followed by
+   above the actual spend/confirmation height, truthful rescan answers (no
+   condition on registered clients since the repair af6371e), ConnectTip followed by
    NotifyHeight before the next connect/disconnect, a txid confirmed (an
    outpoint spent) at most once on the chain, reorgs within reorgSafetyLimit of
    the highest tip seen, inclusions of unwatched requests at or above their
@@ -144,20 +144,41 @@ Theorem C14_conf_exact_partial_reorg_refuted :
 Proof. exact conf_partial_reorg_refuted. Qed.
 
 (* ================================================================== *)
-(* Without the obligation "rescan details are delivered while some client is
-   registered" exactness is REFUTED (finding C14-F1): register, cancel, rescan
-   completes, the block is reorged out, a new client registers and is told of
-   a spend / confirmation that is not on the active chain. *)
-Theorem C14_spend_exact_cancel_refuted :
-  exists ops w,
-    sstart_ok [(3, None); (2, Some 0); (1, None)] 3 144 None /\
-    swrun (sinit [(3, None); (2, Some 0); (1, None)] 3 144 None) ops = Some w /\
-    slstate 2 (sw_log w) = Some (Some (2, 0)) /\ spos (sw_chain w) = None.
-Proof. exact spend_cancel_refuted. Qed.
+(* Repair af6371e (former finding C14-F1).  The obligation "rescan details are
+   delivered while some client is registered" is no longer needed by any
+   theorem above.  Positive regression statements: the former counter-example
+   history (register, cancel, the rescan completes with ZERO clients, the
+   block is reorged out, a new client registers) satisfies every environment
+   obligation; the details found with zero clients are stored AND tracked in
+   confsByInitialHeight / spendsByHeight, the reorg of their block clears
+   them, and the new client is told nothing; the hint follows the chain. *)
+Theorem C14_conf_details_on_chain :
+  forall ch start lim h0 w,
+    cstart_ok ch start lim h0 -> creach (cinit ch start lim h0) w ->
+    forall s, cset (cw_st w) = Some s ->
+      (forall h b, cs_det s = Some (h, b) -> cpos (cw_chain w) = Some (h, b)) /\
+      (cs_det s = None -> cs_rescan s = RComplete -> cpos (cw_chain w) = None) /\
+      (cs_det s = None -> forall c, In c (cs_ntfns s) -> c_disp c = false).
+Proof. exact conf_details_on_chain. Qed.
 
-Theorem C14_conf_exact_cancel_refuted :
-  exists ops w,
-    cstart_ok [(3, (3, false)); (2, (2, true)); (1, (1, false))] 3 144 None /\
-    cwrun (cinit [(3, (3, false)); (2, (2, true)); (1, (1, false))] 3 144 None) ops = Some w /\
-    clstate 2 (cw_log w) = Some (Some (2, 2)) /\ cpos (cw_chain w) = None.
-Proof. exact conf_cancel_refuted. Qed.
+Theorem C14_conf_zero_client_details_cleared :
+  exists w1 w s1 s,
+    cstart_ok zc_cchain 3 144 None /\
+    cvrun (cinit zc_cchain 3 144 None) zc_cops1 w1 /\
+    cset (cw_st w1) = Some s1 /\ cs_ntfns s1 = [] /\ cs_det s1 = Some (2, 2) /\
+    initial (cw_st w1) = [2] /\
+    cvrun w1 zc_cops2 w /\ creach (cinit zc_cchain 3 144 None) w /\
+    cset (cw_st w) = Some s /\ cs_det s = None /\ cpos (cw_chain w) = None /\
+    clstate 2 (cw_log w) = Some None /\ hint (cw_st w) = Some 3.
+Proof. exact conf_zero_client_details_cleared. Qed.
+
+Theorem C14_spend_zero_client_details_cleared :
+  exists w1 w s1 s,
+    sstart_ok zc_schain 3 144 None /\
+    svrun (sinit zc_schain 3 144 None) zc_sops1 w1 /\
+    sset (sw_st w1) = Some s1 /\ ss_ntfns s1 = [] /\ ss_det s1 = Some (2, 0) /\
+    sheights (sw_st w1) = [2] /\
+    svrun w1 zc_sops2 w /\ sreach (sinit zc_schain 3 144 None) w /\
+    sset (sw_st w) = Some s /\ ss_det s = None /\ spos (sw_chain w) = None /\
+    slstate 2 (sw_log w) = Some None /\ shint (sw_st w) = Some 3.
+Proof. exact spend_zero_client_details_cleared. Qed.
